@@ -218,9 +218,10 @@ def blockOf (sh : SHeader) (d : Data) : Block := { sh := sh, data := d, savedSig
 def stateAfter (n : FNode) (sh : SHeader) (d : Data) : State :=
   nextState n.lastState sh.hdr (execRoot n.lastState.appHash d.txs)
 
-/-- the three durable writes of one applied block, in the order the code issues them -/
+/-- the three durable writes of one applied block, in the order the code issues them: the block, then the
+state that says it was applied, then the chain height -/
 def blockWrites (n : FNode) (sh : SHeader) (d : Data) : List SW :=
-  [.updateState (stateAfter n sh d), .saveBlock (n.store.height + 1) (blockOf sh d), .setHeight (n.store.height + 1)]
+  [.saveBlock (n.store.height + 1) (blockOf sh d), .updateState (stateAfter n sh d), .setHeight (n.store.height + 1)]
 
 /-- the node after one successful iteration of `trySyncNextBlock` -/
 def advance (n : FNode) (sh : SHeader) (d : Data) : FNode :=
@@ -251,12 +252,35 @@ theorem advance_height (n : FNode) (sh : SHeader) (d : Data) : (advance n sh d).
 theorem advance_getBlock (n : FNode) (sh : SHeader) (d : Data) (k : Nat) :
     (advance n sh d).store.getBlock k = if n.store.height + 1 = k then some (blockOf sh d) else n.store.getBlock k := by
   simp only [advance, blockWrites, Store.applyAll, List.foldl]
-  rw [getBlock_setHeight, getBlock_saveBlock]; rfl
+  rw [getBlock_setHeight, getBlock_updateState, getBlock_saveBlock]
 
 theorem advance_state (n : FNode) (sh : SHeader) (d : Data) :
     (advance n sh d).store.state = some (stateAfter n sh d) := by
   simp only [advance, blockWrites, Store.applyAll, List.foldl]
   rw [state_setHeight]; rfl
+
+/-! ## the DA-submission watermarks in the metadata (`Sync.start` reads them and raises them to
+`initialHeight - 1`; the sync loop itself never writes metadata) -/
+
+/-- both submission watermarks parse — true of every image the node wrote itself (absent, or 8 bytes);
+`NewManager` fails on an image where one of them does not -/
+def WmOK (d : Store) : Prop :=
+  (∃ w, Producer.wmOf d Producer.hdrWmKey = some w) ∧ (∃ w, Producer.wmOf d Producer.dataWmKey = some w)
+
+theorem wmOf_kv {d d' : Store} (h : d'.kv = d.kv) (k : String) : Producer.wmOf d' k = Producer.wmOf d k := by
+  simp [Producer.wmOf, Store.getMeta, h]
+
+theorem WmOK.kv {d d' : Store} (hw : WmOK d) (h : d'.kv = d.kv) : WmOK d' := by
+  unfold WmOK; rw [wmOf_kv h, wmOf_kv h]; exact hw
+
+theorem kv_setHeight (s : Store) (h : Nat) : (s.apply (.setHeight h)).kv = s.kv := by
+  simp only [Store.apply]; split <;> rfl
+
+theorem wmOK_empty : WmOK ({} : Store) := ⟨⟨0, rfl⟩, ⟨0, rfl⟩⟩
+
+theorem advance_kv (n : FNode) (sh : SHeader) (d : Data) : (advance n sh d).store.kv = n.store.kv := by
+  simp only [advance, blockWrites, Store.applyAll, List.foldl]
+  rw [kv_setHeight]; rfl
 
 
 end Sync
